@@ -14,7 +14,7 @@ static void vf_havoc_ghosts(void) { g_any = 0; g_max = 0; }
 
 /* for_each: an arbitrary number of arbitrary slots, each handed to the REAL lambda of value(); the ghost (g_any, g_max) is the
  * reference result.  The loop invariant is the induction hypothesis "the lambda's captured state equals the reference so far". */
-void MaxStore_for_each__MaxLambda_void(struct MaxStore *st, struct MaxLambda *cb) {
+void MaxStore_for_each__lambda_counter_value_2_void(struct MaxStore *st, struct lambda_counter_value_2 *cb) {
   unsigned long n = nondet_u64();
   for (unsigned long i = 0; i < n; ++i)
     __CPROVER_assigns(i, g_any, g_max, g_slot, *cb->cap_result, *cb->cap_has_result)
@@ -25,7 +25,7 @@ void MaxStore_for_each__MaxLambda_void(struct MaxStore *st, struct MaxLambda *cb
   {
     g_slot.version = nondet_u64(); g_slot.value = nondet_i64();
     if (g_slot.version == cb->cap_this->_version) { if (!g_any || g_slot.value > g_max) g_max = g_slot.value; g_any = 1; }
-    Maxer_lambda_op_call(cb, &g_slot);
+    Maxer_value_lambda_counter_value_2_op_call(cb, &g_slot);
   }
 }
 
